@@ -570,6 +570,9 @@ func (c *hctx) expr(e ast.Expr, pre *[]hbind) (string, *hty) {
 		if s, t, ok := c.textStar(v, pre); ok {
 			return s, t
 		}
+		if s, t, ok := c.recvDeref(v, pre); ok {
+			return s, t
+		}
 		c.lostAt(v, "dereference %s", src(v))
 	case *ast.UnaryExpr:
 		switch v.Op {
@@ -1047,6 +1050,11 @@ func (c *hctx) callTranslated(cal *hfunc, fun ast.Expr, args []ast.Expr, ellipsi
 	}
 	if cal.ctor {
 		c.lostAt(at, "call of the constructor %s", cal.spec)
+	}
+	for _, rt := range cal.results {
+		if rt.k == "struct" && rt.vres {
+			c.lostAt(at, "call of %s, whose result may be nil or its receiver", cal.spec)
+		}
 	}
 	selfInLoop := cal == c.fn && (len(c.loops) > 0 || c.lit != nil)
 	if selfInLoop {
